@@ -10,7 +10,9 @@ EXTRA = {"C01-2": ["C07"], "C06-1": ["C07"], "C03-2": ["C02"], "C11-3": ["C16"],
          "C01-3": ["C15", "C05"], "C10-1": ["C19"], "C07-r3-2": ["C17"], "C14-r3-2": ["C13"], "C15-r3-2": ["C07"], "C17-r3-1": ["C07"],
          "C08-r2-1": ["C13"], "C05-r2-1": ["C20"], "C10-r2-1": ["C19"], "C03-r3-2": ["C08"],
          "C16-r4-2": ["C11"], "C06-r4-2": ["C08"], "C03-r4-1": ["C10"], "C04-r4-2": ["C06"], "C12-r4-2": ["C19"], "C19-r4-2": ["C03", "C10"],
-         "C01-r4-2": ["C07", "C14"], "C08-r4-2": ["C02"]}
+         "C01-r4-2": ["C07", "C14"], "C08-r4-2": ["C02"],
+         "C01-r5-1": ["C04", "C06"], "C01-r5-2": ["C07"], "C07-r5-2": ["C14"], "C08-r5-2": ["C03"], "C13-r5-1": ["C07", "C14"], "C16-r5-1": ["C09"],
+         "C05-r5-2": ["C01"], "C11-r5-1": ["C16"], "C11-r5-2": ["C04", "C06"], "C06-r5-1": ["C04", "C01"], "C04-r5-2": ["C01"]}
 
 
 def run(seed):
